@@ -195,17 +195,6 @@ class ConstBitStream(Bits):
         s._pos = 0
         return s
 
-    def append(self, bs: BitsType, /) -> None:
-        """Append a bitstring to the current bitstring.
-
-        bs -- The bitstring to append.
-
-        The current bit position will be moved to the end of the BitStream.
-
-        """
-        self._append(bs)
-        self._pos = len(self)
-
     def __repr__(self) -> str:
         """Return representation that could be used to recreate the bitstring.
 
@@ -213,28 +202,6 @@ class ConstBitStream(Bits):
 
         """
         return self._repr(self.__class__.__name__, len(self), self._pos)
-
-    def overwrite(self, bs: BitsType, /, pos: Optional[int] = None) -> None:
-        """Overwrite with bitstring at bit position pos.
-
-        bs -- The bitstring to overwrite with.
-        pos -- The bit position to begin overwriting from.
-
-        The current bit position will be moved to the end of the overwritten section.
-        Raises ValueError if pos < 0 or pos > len(self).
-
-        """
-        bs = Bits._create_from_bitstype(bs)
-        if len(bs) == 0:
-            return
-        if pos is None:
-            pos = self._pos
-        if pos < 0:
-            pos += len(self)
-        if pos < 0 or pos > len(self):
-            raise ValueError("Overwrite starts outside boundary of bitstring.")
-        self._overwrite(bs, pos)
-        self._pos = pos + len(bs)
 
     def find(self, bs: BitsType, /, start: Optional[int] = None, end: Optional[int] = None,
              bytealigned: Optional[bool] = None) -> Union[Tuple[int], Tuple[()]]:
@@ -627,6 +594,39 @@ class BitStream(ConstBitStream, bitstring.BitArray):
         self._append(bs)
         self._pos = len(self)
         return self
+
+    def append(self, bs: BitsType, /) -> None:
+        """Append a bitstring to the current bitstring.
+
+        bs -- The bitstring to append.
+
+        The current bit position will be moved to the end of the BitStream.
+
+        """
+        self._append(bs)
+        self._pos = len(self)
+
+    def overwrite(self, bs: BitsType, /, pos: Optional[int] = None) -> None:
+        """Overwrite with bitstring at bit position pos.
+
+        bs -- The bitstring to overwrite with.
+        pos -- The bit position to begin overwriting from.
+
+        The current bit position will be moved to the end of the overwritten section.
+        Raises ValueError if pos < 0 or pos > len(self).
+
+        """
+        bs = Bits._create_from_bitstype(bs)
+        if len(bs) == 0:
+            return
+        if pos is None:
+            pos = self._pos
+        if pos < 0:
+            pos += len(self)
+        if pos < 0 or pos > len(self):
+            raise ValueError("Overwrite starts outside boundary of bitstring.")
+        self._overwrite(bs, pos)
+        self._pos = pos + len(bs)
 
     def prepend(self, bs: BitsType, /) -> None:
         """Prepend a bitstring to the current bitstring.
